@@ -1,1 +1,207 @@
-import Depccg.Print.More
+/-
+  C07  Every output format encodes the same derivation: the formats without a reader
+  (auto_extended, the conll dependency column, json, deriv, record numbering).
+  Property theorems only; the statements are in Depccg/Props/C07Defs.lean, helper lemmas in
+  Depccg/Proofs/C07Lemmas.lean.   auto / conll fragments: C08;  ptb / ja: C20;  xml: C15.
+-/
+import Depccg.Props.C07Defs
+import Depccg.Proofs.C07Lemmas
+
+namespace Depccg.C07
+open Depccg Str Print TextProps
+
+/-- records are numbered by sentence, from 1, n-best trees of one sentence under one number -/
+theorem numbering : NumberingStatement := fun batch => ⟨numbered_fst batch, numbered_snd batch⟩
+
+/-- the json tree has the shape, categories, labels and token attributes of the tree -/
+theorem json_shape : JsonShapeStatement := jsonShape_jsonOf
+
+/-- every attachment stays inside the span of the node that makes it and is not a self-loop -/
+theorem attachments_in_span : AttachmentsInSpanStatement := attachments_span
+
+/-- the dependency column of the conll format: one root (the head word of the tree), every other
+    word attached as the head flags say -/
+theorem conll_heads : ConllHeadsStatement := by
+  intro t
+  have h := resolveDeps_spec t []
+  refine ⟨h.fst, ?_, h.head, ?_, ?_⟩
+  · simpa using h.len
+  · intro i hi hne
+    exact h.dep i (Nat.zero_le _) (by simpa using hi) hne
+  · have := h.cnt
+    simpa [roots] using this
+
+/-- the rule lines of the ASCII art: post-order of the internal nodes, each spanning exactly the
+    columns of its leaves -/
+theorem deriv_geometry : DerivGeometryStatement := derivRec_spec
+
+/-- the independent decoder reads every printed extended AUTO line back to the view of the tree -/
+theorem autoext_decode : AutoExtDecodeStatement :=
+  fun t s hc ht hl hs => decExt_printed t s hc ht hl hs
+
+/-! ### the hypotheses are satisfiable: a three-word tree with both head directions -/
+
+section examples
+
+private def cNP : Cat := .atom (lit "NP") (.un none)
+private def cN : Cat := .atom (lit "N") (.un none)
+private def cS : Cat := .atom (lit "S") (.un (some (lit "dcl")))
+private def cVP : Cat := .fn cS cBSlash cNP
+private def cTV : Cat := .fn cVP cSlash cNP
+
+/-- `Kim sees (` : `NP` + (`(S[dcl]\NP)/NP` + (`N` ⇒ `NP`)); the root is headed by its right
+    child, the verb phrase by its left child: the head word is `sees` -/
+private def exTree : Tree :=
+  .bin cS (lit "ba") (lit "<") false
+    (.leaf cNP (Token.ofWord (lit "Kim")) (lit "lex") (lit "<lex>"))
+    (.bin cVP (lit "fa") (lit ">") true
+      (.leaf cTV [(lit "word", lit "sees"), (lit "lemma", lit "see"), (lit "pos", lit "VBZ")]
+        (lit "lex") (lit "<lex>"))
+      (.un cNP (lit "lex") (lit "<un>")
+        (.leaf cN [(lit "word", lit "("), (lit "pos", lit "NN"), (lit "chunk", lit "I-NP")]
+          (lit "lex") (lit "<lex>"))))
+
+private theorem wfNP : C05.WF cNP := ⟨⟨by decide, by decide⟩, trivial, fun _ => rfl⟩
+private theorem wfN : C05.WF cN := ⟨⟨by decide, by decide⟩, trivial, fun _ => rfl⟩
+private theorem wfS : C05.WF cS :=
+  ⟨⟨by decide, by decide⟩, ⟨⟨by decide, by decide⟩, by decide⟩, by decide⟩
+private theorem wfVP : C05.WF cVP := ⟨wfS, by decide, wfNP⟩
+private theorem wfTV : C05.WF cTV := ⟨wfVP, by decide, wfNP⟩
+
+private theorem okNP : CatOK cNP := ⟨wfNP, by decide, by decide⟩
+private theorem okN : CatOK cN := ⟨wfN, by decide, by decide⟩
+private theorem okS : CatOK cS := ⟨wfS, by decide, by decide⟩
+private theorem okVP : CatOK cVP := ⟨wfVP, by decide, by decide⟩
+private theorem okTV : CatOK cTV := ⟨wfTV, by decide +kernel, by decide +kernel⟩
+
+private theorem exCats : AllCats CatOK exTree := ⟨okS, okNP, okVP, okTV, okNP, okN⟩
+
+private theorem exToks : AllToks TokOK exTree := by
+  refine ⟨⟨⟨_, rfl⟩, ?_⟩, ⟨⟨_, rfl⟩, ?_⟩, ⟨⟨_, rfl⟩, ?_⟩⟩ <;> (simp only [PlainWord]; decide)
+
+private theorem exLabels : LabelsPlain exTree := by
+  refine ⟨?_, trivial, ?_, trivial, ?_, trivial⟩ <;> (simp only [PlainWord]; decide)
+
+private theorem exWords :
+    AllToks (fun tok => ∃ w, Token.get? tok (lit "word") = some w) exTree :=
+  ⟨⟨_, rfl⟩, ⟨_, rfl⟩, ⟨_, rfl⟩⟩
+
+/-- the extended AUTO line, evaluated: rule labels, both head flags, attributes or `XX`, the
+    escaped bracket word -/
+private theorem exLine : autoExtOf exTree = .ok (lit
+    ("(<T S[dcl] ba 1 2> (<L NP Kim XX XX XX XX NP>) (<T S[dcl]\\NP fa 0 2> " ++
+     "(<L (S[dcl]\\NP)/NP sees see VBZ XX XX (S[dcl]\\NP)/NP>) " ++
+     "(<T NP lex 0 1> (<L N -LRB- XX NN XX I-NP N>) ) ) )")) := by
+  decide +kernel
+
+/-- what the line carries -/
+private def exView : AView :=
+  .bin (lit "S[dcl]") (lit "ba") false
+    (.leaf (lit "NP") (lit "Kim") (lit "XX") (lit "XX") (lit "XX") (lit "XX"))
+    (.bin (lit "S[dcl]\\NP") (lit "fa") true
+      (.leaf (lit "(S[dcl]\\NP)/NP") (lit "sees") (lit "see") (lit "VBZ") (lit "XX") (lit "XX"))
+      (.un (lit "NP") (lit "lex") true
+        (.leaf (lit "N") (lit "-LRB-") (lit "XX") (lit "NN") (lit "XX") (lit "I-NP"))))
+
+example : viewExt exTree = exView := by decide +kernel
+
+/-- the decoder on the printed line, evaluated … -/
+example : decExt (nodes exTree + 1) (splitOn cSpace (lit
+    ("(<T S[dcl] ba 1 2> (<L NP Kim XX XX XX XX NP>) (<T S[dcl]\\NP fa 0 2> " ++
+     "(<L (S[dcl]\\NP)/NP sees see VBZ XX XX (S[dcl]\\NP)/NP>) " ++
+     "(<T NP lex 0 1> (<L N -LRB- XX NN XX I-NP N>) ) ) )"))) = some (exView, []) := by
+  decide +kernel
+
+/-- … and by the theorem -/
+example : decExt (nodes exTree + 1) (splitOn cSpace (lit
+    ("(<T S[dcl] ba 1 2> (<L NP Kim XX XX XX XX NP>) (<T S[dcl]\\NP fa 0 2> " ++
+     "(<L (S[dcl]\\NP)/NP sees see VBZ XX XX (S[dcl]\\NP)/NP>) " ++
+     "(<T NP lex 0 1> (<L N -LRB- XX NN XX I-NP N>) ) ) )"))) = some (viewExt exTree, []) :=
+  autoext_decode exTree _ exCats exToks exLabels exLine
+
+/-- a truncated line is rejected by the decoder -/
+example : decExt 10 (splitOn cSpace (lit "(<T S[dcl] ba 1 2> (<L NP Kim XX XX XX XX NP>)")) = none := by
+  decide +kernel
+
+/-- the dependency column, evaluated: `sees` is the root, `Kim` and `(` attach to it -/
+example : resolveDeps exTree [] = (1, [some 1, none, some 1]) := by decide +kernel
+example : headIdx exTree 0 = 1 := by decide +kernel
+example : attachments exTree 0 = [(2, 1), (0, 1)] := by decide +kernel
+
+/-- every non-root entry of the column is an attachment, evaluated and by the theorem -/
+example : ∀ i, i < 3 → i ≠ 1 →
+    ∃ j, (resolveDeps exTree []).2[i]? = some (some j) ∧ (i, j) ∈ attachments exTree 0 :=
+  (conll_heads exTree).2.2.2.1
+
+example : ((resolveDeps exTree []).2.filter (· == none)).length = 1 := (conll_heads exTree).2.2.2.2
+
+example : ∀ p ∈ attachments exTree 0, p.1 < 3 ∧ p.2 < 3 ∧ p.1 ≠ p.2 := by
+  intro p hp
+  have := attachments_in_span exTree 0 p hp
+  have h3 : exTree.numLeaves = 3 := by decide +kernel
+  rw [h3] at this
+  omega
+
+/-- the conll rows carry the column as 1-based numbers, 0 for the root -/
+example : conllOf exTree = .ok (lit
+    ("1\tKim\tXX\tXX\tXX\t_\t2\tNP\t_\t(<T S[dcl] 1 2> (<L NP XX XX Kim NP>)\n" ++
+     "2\tsees\tsee\tVBZ\tVBZ\t_\t0\t(S[dcl]\\NP)/NP\t_\t(<T S[dcl]\\NP 0 2> (<L (S[dcl]\\NP)/NP VBZ VBZ sees (S[dcl]\\NP)/NP>)\n" ++
+     "3\t-LRB-\t_\tNN\tNN\t_\t2\tN\t_\t(<T NP 0 1> (<L N NN NN -LRB- N>) ) ) )")) := by
+  decide +kernel
+
+/-- the ASCII art, evaluated -/
+example : derivOf exTree = .ok (lit
+    (" NP   (S[dcl]\\NP)/NP  N\n" ++
+     " Kim       sees       (\n" ++
+     "                     ---<un>\n" ++
+     "                     NP\n" ++
+     "     ------------------->\n" ++
+     "          S[dcl]\\NP\n" ++
+     "------------------------<\n" ++
+     "         S[dcl]\n")) := by
+  decide +kernel
+
+/-- its rule lines are the ones the geometry prescribes: by the theorem, and evaluated -/
+example : derivRec exTree 0 = .ok (0 + width exTree, ruleLines exTree 0) :=
+  deriv_geometry exTree 0 exWords
+
+example : width exTree = 24 ∧ ruleLines exTree 0 = lit
+    ("                     ---<un>\n" ++
+     "                     NP\n" ++
+     "     ------------------->\n" ++
+     "          S[dcl]\\NP\n" ++
+     "------------------------<\n" ++
+     "         S[dcl]\n") := by
+  decide +kernel
+
+/-- without a word the printer raises, so the hypothesis of `deriv_geometry` is needed -/
+example : derivRec (.leaf cNP [] (lit "lex") (lit "<lex>")) 0 = .error .keyError := by decide +kernel
+
+/-- numbering: two parses of the first sentence, none of the second, one of the third -/
+example : numbered [[10, 11], [], [30]] = [(1, 10), (1, 11), (3, 30)] := by decide
+
+example : (numbered [[10, 11], [], [30]]).map (·.1) = [1, 1, 3] :=
+  (numbering [[10, 11], [], [30]]).1
+
+/-- json: the leaf objects are the tokens with `cat` appended -/
+example : jsonOf exTree =
+    .node (lit "ba") (lit "S[dcl]")
+      [.leaf (Token.ofWord (lit "Kim") ++ [(lit "cat", lit "NP")]),
+       .node (lit "fa") (lit "S[dcl]\\NP")
+        [.leaf [(lit "word", lit "sees"), (lit "lemma", lit "see"), (lit "pos", lit "VBZ"),
+                (lit "cat", lit "(S[dcl]\\NP)/NP")],
+         .node (lit "lex") (lit "NP")
+          [.leaf [(lit "word", lit "("), (lit "pos", lit "NN"), (lit "chunk", lit "I-NP"),
+                  (lit "cat", lit "N")]]]] := by
+  rfl
+
+example : jsonShape (jsonOf exTree) exTree := json_shape exTree
+
+/-- a token that already has a `cat` key: the value is overwritten in place (the second clause of
+    `jsonShape` on leaves does not apply) -/
+example : jsonOf (.leaf cNP [(lit "cat", lit "X"), (lit "word", lit "a")] [] []) =
+    .leaf [(lit "cat", lit "NP"), (lit "word", lit "a")] := by rfl
+
+end examples
+
+end Depccg.C07
